@@ -104,6 +104,8 @@ def family(prop, tier):
         add("3t", [owner[1], RD, RD])
         add("3t-b", [owner[0], RD, ["clone", "read", "drop", "drop"]])
         add("2 pollers", [owner[0], owner[0]])
+        add("scoped cloners then write", [["read", "get_mut_write", "drop"], ["bclone", "drop"], ["bclone", "read", "drop"]],
+            {1: (0, -1), 2: (0, -1)}, {1: (0, 1), 2: (0, 1)})
         if tier == "thorough":
             for o in owner:
                 for x, y in itertools.combinations_with_replacement(others, 2):
@@ -122,6 +124,8 @@ def family(prop, tier):
                 add("2t", [o, x])
         add("3t", [owner[0], RD, RD])
         add("2 writers", [owner[0], owner[0]])
+        add("scoped cloners then write", [["read", "make_mut_write", "drop"], ["bclone", "drop"], ["bclone", "read", "drop"]],
+            {1: (0, -1), 2: (0, -1)}, {1: (0, 1), 2: (0, 1)})
         if tier == "thorough":
             for o in owner:
                 for x, y in itertools.combinations_with_replacement(others, 2):
@@ -136,6 +140,11 @@ def family(prop, tier):
             add(f"2t:{a}{b}", [ops[a], ops[b]])
         for c in [(0, 0, 0), (0, 1, 2), (4, 5, 6), (0, 3, 3), (1, 1, 6)]:
             add("3t:" + "".join(map(str, c)), [ops[i] for i in c])
+        # two scoped threads clone through the parent's (sole) handle at the same time and drop their clones; they are
+        # joined before the parent unwraps: no increment may be lost, the parent's value is still there and is handed out
+        for last in ("try_unwrap", "unwrap_or_clone"):
+            add("scoped cloners then " + last, [["read", last], ["bclone", "drop"], ["bclone", "read", "drop"]],
+                {1: (0, -1), 2: (0, -1)}, {1: (0, 1), 2: (0, 1)})
         if tier == "thorough":
             for c in itertools.combinations_with_replacement(range(len(ops)), 3):
                 add("3t:" + "".join(map(str, c)), [ops[i] for i in c])
@@ -377,7 +386,10 @@ def sequential_events(paths, c):
                     raise RuntimeError(f"atomic {e['op']} in a template: not covered by the recording stubs")
                 m = nv
             elif k == "W":
-                raise RuntimeError("plain atomic store in a template: not covered by the recording stubs")
+                w = e["wval"]
+                nv = w if isinstance(w, int) else simplify(substitute(w, *sub)).as_long()
+                evs.append((7, ORD_CODE[e["ord"]], nv))
+                m = nv
             elif k == "F":
                 evs.append((4, ORD_CODE[e["ord"]], 0))
         pc = simplify(substitute(And(*p["pc"]), *sub)) if p["pc"] else BoolVal(True)
